@@ -24,7 +24,9 @@ claim("C09",
   "(c) enum member keys: values_from_list_keys_nodup (Values.v). (d) classes: classes_distinct_or_error (generated class names pairwise distinct; every schema generated or reported; of two schemas with one derived "
   "ClassName the later is reported) and modules_unchecked_refuted (AB / Ab: two classes, one module ab); the class-name scope WITH enums (EnumProperty.build: member table first, then `values != existing.values` as dict "
   "equality, equal twin replaces the entry, enum vs model reported): enum_classes_distinct_or_shared (class names pairwise distinct; every generated enum class holds exactly the member table of one declared value list; "
-  "two unreported enums with one class name have the same member names with the same values; an enum and a model of one class name are never both kept). "
+  "two unreported enums with one class name have the same member names with the same values; an enum and a model of one class name are never both kept); the fold is also stated for ANY table builder "
+  "(decls_distinct_or_shared_g, Section over tbl with NoDup keys) and instantiated for literal_enums: true, where LiteralEnumProperty.build has its own copy of the guard over value SETS (model_decls_lit, table keyed by the "
+  "value itself so that table_eqb is set equality): literal_classes_distinct_or_shared. "
   "(e) attributes of a schema composed with allOf, where merging (Merge.v, C15) and the name-conflict scan interact: ProcProps.v models the loop of _process_properties over the incoming properties "
   "(referenced members' properties with the python names their own processing left on them, own properties, inline members' properties) - merge with the stored property of the same document name "
   "(Merge.add_prop), python name of the merged object = that of whichever side _merge_common_attributes takes as base (base_is_new, branch by branch), scan over the other entries SKIPPING the same-name entry "
@@ -39,7 +41,9 @@ claim("C09",
   "'Conflicting property names'), Endpoint.add_parameters (python names in iteration order or ParseError) and GeneratorData.from_dict (class names + duplicate-model errors); ~700 splits per quick run of one operation's parameters between the path-item list and the operation list "
   "(0+1, 1+0, 1+1, 1+n, n+1, n+m, absent vs empty list, lone client/url/keyword, names colliding across the lists in the same and in different locations, keys present in both) through the two real "
   "Endpoint.add_parameters calls == Scopes.model_params2, and ~50 of them as documents through the whole generator (endpoint module must compile and _get_kwargs must take exactly those python names, or a diagnostic is printed); "
-  "~350 declaration sequences (enum twins whose member names coincide while values differ in case / delimiters / VALUE_n form, inline enums, "
+  "~250 declaration sequences per quick run under literal_enums: true (equal / permuted / proper subset / superset / overlapping / disjoint / other-type value sets, both orders, inline x component x model) through a threaded real "
+  "property_from_data == Scopes.model_decls_lit, plus ~100 documents (component enum x inline property x second holder AB{c} vs A{b_c} x enum PARAMETER of an operation) through GeneratorData.from_dict with the oracle: every generated "
+  "Literal alias holds exactly one declared value set and every unreported declaration is represented; ~350 declaration sequences (enum twins whose member names coincide while values differ in case / delimiters / VALUE_n form, inline enums, "
   "object schemas) through a threaded real property_from_data and ~120 documents through GeneratorData.from_dict vs Scopes.model_decls; for ~30 generated trees per quick run (operationIds / tags / schema names from a hostile pool: "
   "leading digits, symbols only, empty, keywords) the api/<tag>/, api/<tag>/<operation>.py and models/<class>.py names are compared in Coq with Names.python_identifier of the parsed names (oracles on the same outputs: every generated "
   "enum class holds exactly one declared value list and every unreported declared enum is held by some class; every directory and .py stem of a generated tree is a valid non-keyword identifier); ~1k (quick) / ~14k (thorough) random components-only documents "
